@@ -40,10 +40,58 @@ class CFG:
                 seen.add(s)
                 self.succ[i].append(s)
                 self.pred[s].append(i)
+        self._prune_infeasible()
         self.reach = self._reach(0)
         self._dom = None
         self._pdom = None
         self._loops = None
+
+    def _prune_infeasible(self):
+        """`Err(e)?` : Try::branch applied to a freshly built Result::Err always yields Break; the
+        Continue edge of the following discriminant switch is infeasible and is removed."""
+        body = self.body
+        blocks = body.blocks
+        self.pruned = []
+
+        def single_def(l):
+            found = None
+            n = 0
+            for b in blocks:
+                for st in b["s"]:
+                    if st["k"] == "assign" and st["lhs"]["l"] == l and not st["lhs"]["p"]:
+                        found = st["rv"]
+                        n += 1
+                t = b["t"]
+                if t["k"] == "call" and t["dest"]["l"] == l and not t["dest"]["p"]:
+                    found = {"k": "call", "t": t}
+                    n += 1
+            return found if n == 1 else None
+        for i, b in enumerate(blocks):
+            t = b["t"]
+            if t["k"] != "call" or b.get("cleanup"):
+                continue
+            c = t["callee"]
+            cp = c.get("res") or c.get("def") or ""
+            if not cp.endswith("as core::ops::try_trait::Try>::branch") or not t["args"] or t["args"][0].get("k") not in ("copy", "move"):
+                continue
+            d = single_def(t["args"][0]["pl"]["l"])
+            if not (d and d.get("k") == "agg" and d.get("adt") == "core::result::Result" and d.get("variant") == "Err"):
+                continue
+            nxt = t.get("t")
+            if nxt is None:
+                continue
+            sw = blocks[nxt]["t"]
+            if sw["k"] != "switch":
+                continue
+            # Continue has discriminant 0
+            cont = dict((v, tg) for v, tg in sw["vals"]).get(0)
+            if cont is None:
+                continue
+            if cont in self.succ[nxt] and len(set(self.succ[nxt])) > 1:
+                self.succ[nxt] = [x for x in self.succ[nxt] if x != cont]
+                if nxt in self.pred[cont]:
+                    self.pred[cont] = [x for x in self.pred[cont] if x != nxt]
+                self.pruned.append((nxt, cont))
 
     def _reach(self, start):
         seen = {start}
